@@ -910,7 +910,7 @@ def run_sharded(cmd, in_path, tmp, shards=8):
 def main(argv):
     args = [a for a in argv[1:]]
     opts = {"--typedump": "/verif/build/typedump", "--driver": "/verif/build/types_driver", "--keep": None,
-            "--max-report": "5", "--deviations": "25", "--mutants": "15", "--extras": "quick", "--script-dump": None}
+            "--max-report": "5", "--deviations": "25", "--mutants": "15", "--extras": "quick", "--script-dump": None, "--types-out": None}
     run = False
     pos = []
     j = 0
@@ -1021,6 +1021,11 @@ def main(argv):
     with open(sin, "w") as f:
         for i in script_idx:
             f.write(hx(cases[i][2]) + "\n")
+    if opts["--types-out"]:
+        # the type texts that parse alone in both cast positions (for the operand pass of checks/c18.py)
+        with open(opts["--types-out"], "w") as f:
+            for i in script_idx:
+                f.write(hx(cases[i][2]) + "\n")
     sp = subprocess.run([opts["--typedump"], "-script", str(SCRIPT_TYPES)], stdin=open(sin), capture_output=True, text=True)
     sl = sp.stdout.splitlines()
     if keep:
